@@ -20,7 +20,7 @@ def sh(cmd, **kw):
 
 
 def main():
-    d, prop = sys.argv[1], sys.argv[2]
+    d, prop = os.path.abspath(sys.argv[1]), sys.argv[2]
     keep = sys.argv[sys.argv.index('--keep') + 1] if '--keep' in sys.argv else None
     patch = os.path.join(d, 'patch.diff')
     demo = os.path.join(d, 'demo.py')
